@@ -386,6 +386,16 @@ impl Prop for C09 {
     fn shrink(&self, case: &Value) -> Vec<Value> {
         // fewer hostile requests first (only_request pins one), then fewer preparation ops
         let mut out = vec![];
+        if case["mode"] == "transport" {
+            if case.get("only_request").is_none() {
+                for k in 0..case["n"].as_u64().unwrap_or(0) {
+                    let mut c = case.clone();
+                    c["only_request"] = json!(k);
+                    out.push(c);
+                }
+            }
+            return out;
+        }
         if case.get("only_request").is_none() {
             if let Some(n) = case["hostile_n"].as_u64() {
                 for k in 0..n {
@@ -399,15 +409,37 @@ impl Prop for C09 {
         out
     }
     fn rule(&self) -> String {
-        "case = seeded preparation history (possibly none: empty database; possibly ending mid-block; after commits / reorgs) followed by 10-40 hostile requests: every method of the live method table with mutated parameters (missing / extra / wrong type / boundary integers incl. 2^64 / empty, odd, huge, non-hex strings / every compression prefix, truncated and bomb payloads / object instead of array), random bytes as init code and call data through eth_call, eth_estimateGas and real transactions, ABI-valid, truncated and extended input to 0xfa..0xfe (0xfc/0xfd through the override path of eth_callMany), nested calls to standard precompiles, garbage RLP. Monitors: panic (caught; the shipped binary aborts), process death, no progress for 45 s (worker killed, case re-run alone for confirmation), and after every request a liveness probe (eth_blockNumber), every 8th request and at the end a write probe (clearCaches, mine, deposit + finalise must succeed and the height must grow). Parameters that bound the amount of work by design (block_count, inscription_byte_len) only take small values. distinct = sha256 of (ops, hostile seed); non-trivial = at least 10 hostile requests were answered and the final write probe ran".into()
+        "case = seeded preparation history (possibly none: empty database; possibly ending mid-block; after commits / reorgs) followed by 10-40 hostile requests: every method of the live method table with mutated parameters (missing / extra / wrong type / boundary integers incl. 2^64 / empty, odd, huge, non-hex strings / every compression prefix, truncated and bomb payloads / object instead of array), random bytes as init code and call data through eth_call, eth_estimateGas and real transactions, ABI-valid, truncated and extended input to 0xfa..0xfe (0xfc/0xfd through the override path of eth_callMany), nested calls to standard precompiles, garbage RLP. Monitors: panic (caught; the shipped binary aborts), process death, no progress for 45 s (worker killed, case re-run alone for confirmation), and after every request a liveness probe (eth_blockNumber), every 8th request and at the end a write probe (clearCaches, mine, deposit + finalise must succeed and the height must grow). Parameters that bound the amount of work by design (block_count, inscription_byte_len) only take small values. distinct = sha256 of (ops, hostile seed); non-trivial = at least 10 hostile requests were answered and the final write probe ran. One run in forty is a transport run instead: the real start() on a loopback port, 6-15 seeded transport faults out of 23 kinds, authentication enabled in half of the runs (Authorization headers with non-ASCII / control bytes, torn and half-closed bodies, bodies and declared lengths above the limit, garbage request lines, invalid UTF-8, 200k-deep nesting, batches above the limit and of non-requests, other verbs, megabyte headers, a flood of 90-160 idle and half-sent connections, a client that vanishes while its eth_call burns the whole gas limit or waits for the block under construction, pipelining, byte-wise headers, bad chunking, a WebSocket upgrade followed by garbage frames, conflicting Content-Length, multi-megabyte valid requests, reset in mid-response), each followed by eth_blockNumber on a fresh connection within 20 s and a check of the process-wide panic record, and a final mine probe".into()
     }
     fn assumptions(&self) -> Vec<String> {
         vec![
             "errors and panics mentioning the Bitcoin RPC node are the environment fault the property excludes; ABI-valid 0xfc/0xfd input is only sent with transaction overrides so that no node is needed".into(),
+            "transport runs use real sockets and real time (the 5 s wait for an open block included); their transcript is the list of fault kinds, which is a function of the seed; what the server answers to a malformed request is not judged, only that it keeps serving".into(),
             "brc20_mine(block_count) and inscription_byte_len bound the work of a request by design and are only mutated to small values".into(),
         ]
     }
+    /// one run in forty abuses the real server at the transport level instead
+    fn case_for_run(&self, i: u64, seed: u64, tier: Tier) -> Value {
+        if i % 40 == 39 {
+            json!({"mode": "transport", "seed": seed, "n": 6 + seed % 10})
+        } else {
+            self.generate(seed, tier)
+        }
+    }
     fn execute(&self, case: &Value) -> RunOut {
+        if case["mode"] == "transport" {
+            let timer = Timer::start();
+            let o = super::c09t::run(case["seed"].as_u64().unwrap_or(1), case["n"].as_u64().unwrap_or(8), case.get("only_request").and_then(|v| v.as_u64()));
+            return RunOut {
+                digest: sha_hex(&case.to_string()),
+                nontrivial: o.violation.is_none() && o.abuses >= 1,
+                stats: o.stats,
+                sim_ms: timer.elapsed(),
+                violation: o.violation,
+                transcript: sha_hex(&o.transcript),
+                states: vec![],
+            };
+        }
         let sc = scenario_of(case);
         setup(&sc);
         let timer = Timer::start();
